@@ -62,7 +62,12 @@ type KnownFinding struct {
 	What         string `json:"what"`
 }
 
-const verifDir = "/verif"
+var verifDir = func() string {
+	if d := os.Getenv("VERIF_DIR"); d != "" {
+		return d
+	}
+	return "/verif"
+}()
 
 func loadJSON(path string, v interface{}) error {
 	b, err := os.ReadFile(path)
